@@ -22,15 +22,17 @@ EXTENDS Integers, Sequences, FiniteSets, TLC
 
 Field(name, ty) == [k |-> "field", name |-> name, ty |-> ty]
 Embed(ty, ptr)  == [k |-> "embed", ty |-> ty, ptr |-> ptr]
-Shape(ms, m)    == [members |-> ms, method |-> m]
+Shape(ms, m)    == [members |-> ms, method |-> m, ret |-> IF m = "ptr" THEN 101 ELSE 100]   \* what the shape's own M() returns
+InnerShape(ms, m, ret) == [members |-> ms, method |-> m, ret |-> ret]
 
 InnerTypes ==
-  [I1 |-> Shape(<<Field("A", "int")>>, "none"),
-   I2 |-> Shape(<<Field("A", "string"), Field("B", "int")>>, "none"),
-   I3 |-> Shape(<<Field("c", "int")>>, "val"),
-   I4 |-> Shape(<<Field("B", "int")>>, "ptr"),
-   D  |-> Shape(<<Embed("I1", FALSE), Field("B", "string")>>, "none"),
-   E  |-> Shape(<<Embed("I4", TRUE), Field("c", "int")>>, "none")]
+  [I1 |-> InnerShape(<<Field("A", "int")>>, "none", 0),
+   I2 |-> InnerShape(<<Field("A", "string"), Field("B", "int")>>, "none", 0),
+   I3 |-> InnerShape(<<Field("c", "int")>>, "val", 3),
+   I4 |-> InnerShape(<<Field("B", "int")>>, "ptr", 4),
+   I5 |-> InnerShape(<<Field("M", "func")>>, "none", 55),        \* a function-valued field named like the method; it returns 55
+   D  |-> InnerShape(<<Embed("I1", FALSE), Field("B", "string")>>, "none", 0),
+   E  |-> InnerShape(<<Embed("I4", TRUE), Field("c", "int")>>, "none", 0)]
 
 IsExported(name) == SubSeq(name, 1, 1) \in {"A", "B", "C", "D", "E", "I", "M", "N", "X", "Z"}
 
@@ -38,27 +40,31 @@ IsExported(name) == SubSeq(name, 1, 1) \in {"A", "B", "C", "D", "E", "I", "M", "
 (* receiver; path: the member indices leading to it, so that two candidates are never confused) *)
 RECURSIVE Cands(_, _, _)
 Cands(s, name, depth) ==
-  LET own == {[depth |-> depth, kind |-> "field", ty |-> s.members[i].ty, addr |-> FALSE, path |-> <<i>>] :
+  LET own == {[depth |-> depth, kind |-> "field", ty |-> s.members[i].ty, addr |-> FALSE, path |-> <<i>>, ret |-> s.ret] :
                 i \in {j \in 1..Len(s.members) : s.members[j].k = "field" /\ s.members[j].name = name}}
-             \cup {[depth |-> depth, kind |-> "field", ty |-> s.members[i].ty, addr |-> FALSE, path |-> <<i>>] :      \* the embedded field itself
+             \cup {[depth |-> depth, kind |-> "field", ty |-> s.members[i].ty, addr |-> FALSE, path |-> <<i>>, ret |-> 0] :      \* the embedded field itself
                 i \in {j \in 1..Len(s.members) : s.members[j].k = "embed" /\ s.members[j].ty = name}}
              \cup (IF name = "M" /\ s.method # "none"
-                   THEN {[depth |-> depth, kind |-> "method", ty |-> "int", addr |-> s.method = "ptr", path |-> <<0>>]} ELSE {})
+                   THEN {[depth |-> depth, kind |-> "method", ty |-> "int", addr |-> s.method = "ptr", path |-> <<0>>, ret |-> s.ret]} ELSE {})
       deeper == UNION {LET m == s.members[i]
                        IN {[c EXCEPT !.addr = (IF m.ptr THEN FALSE ELSE c.addr), !.path = <<i>> \o c.path] :
                              c \in Cands(InnerTypes[m.ty], name, depth + 1)} :
                        i \in {j \in 1..Len(s.members) : s.members[j].k = "embed"}}
   IN own \cup deeper
 
-(* what `name` denotes on a value of shape s *)
-Lookup(s, name) ==
-  LET cs == Cands(s, name, 0)
-  IN IF cs = {} THEN [res |-> "none"]
+(* what `name` denotes on a value of shape s; LookupIn over a chosen candidate set *)
+LookupIn(cs) ==
+  IF cs = {} THEN [res |-> "none"]
      ELSE LET d == CHOOSE x \in {c.depth : c \in cs} : \A y \in {c.depth : c \in cs} : x <= y
               top == {c \in cs : c.depth = d}
           IN IF Cardinality(top) > 1 THEN [res |-> "ambiguous"]
              ELSE LET c == CHOOSE x \in top : TRUE
-                  IN [res |-> c.kind, ty |-> c.ty, addr |-> c.addr]
+                  IN [res |-> c.kind, ty |-> c.ty, addr |-> c.addr, ret |-> c.ret]     \* ret: what calling it yields (methods, func fields)
+
+Lookup(s, name) == LookupIn(Cands(s, name, 0))
+(* the same rule blind to methods: what reflect.Type.FieldByName answers (it differs from the selector *)
+(* rule exactly where a method shadows, or collides with, a field of the same name)                 *)
+LookupField(s, name) == LookupIn({c \in Cands(s, name, 0) : c.kind = "field"})
 
 (* is the name usable on an environment of shape s passed by value / by pointer? *)
 Usable(s, name, byPtr) ==
